@@ -192,6 +192,9 @@ class C09(Check):
                                 out.append((place, beh, site[0], op, "root+redeclared"))
                             if site[0] in ("d2sel", "d2where", "d3", "d2selmany"):
                                 out.append((place, beh, site[0], op, "root+samenames"))
+                            if site[0] in ("d1", "d2sel", "d3") and place in ("class", "method", "both", "prop", "proplist"):
+                                # a SECOND model is made by the same source (same module name, same class names) before the query
+                                out.append((place, beh, site[0], op, "root+twomodels"))
             return out
         return [Space("configurations", {"places": PLACES, "behaviours": BEHAVIOURS, "sites": [s[0] for s in SITES]},
                       cases, runner="run_case")]
@@ -203,6 +206,8 @@ class C09(Check):
         bind.reset_type_registries()
         g = build(place, beh, parent.endswith("+inherit"), parent.endswith("+usercoll"), parent.endswith("+redeclared"),
                   parent.endswith("+genericbase"))
+        if parent.endswith("+twomodels"):
+            build(place, "md+rename" if beh != "md+rename" else "identity")  # its callbacks log elsewhere and behave differently
         site = next(s for s in SITES if s[0] == sname)
         calls = [call_text(place, var, arg) for (_, var, arg) in site[2]]
         body = site[1].format(c1=calls[0] if calls else "", c2=calls[1] if len(calls) > 1 else "")
@@ -282,10 +287,10 @@ class C09(Check):
                     res["viol"].append({"kind": "property-parameters-not-passed-by-value", "canon": canon,
                                         "msg": f"wanted {want_params}, log {[(o, p) for _, o, _, p in log]}"})
                     return res
-        if place in ("prop", "proplist") and op == "Select" and sname in ("d1", "d1x2"):
+        if place in ("prop", "proplist", "class", "method", "both", "both-same") and op == "Select" and sname in ("d1", "d1x2"):
             # the callback of a parameterized property states its result type (float): the enclosing expression is typed with it
             if s1.item_type is not float:
-                res["viol"].append({"kind": "parameterized-property-type-lost", "canon": canon, "msg": f"{lam}: item type {s1.item_type!r}, the callback said float"})
+                res["viol"].append({"kind": "type-of-a-call-rewritten-by-its-callback-lost", "canon": canon, "msg": f"{lam}: item type {s1.item_type!r}, declared float"})
                 return res
         # ---------------- metadata on the source chain, below the new operator
         top = s1.query_ast
